@@ -180,4 +180,8 @@ def run(ck, tier):
     from ..share import import_findings
     import_findings(ck, 'C03', 'R8', ('R7',), 'a request for a unit id >= 128 is not routed to the unit it addresses', detail_prefixes=('signedness-mismatch',))
     ck.assume('non-interference between units as a run-time fact follows from R2 + C05 R2 and is not decided itself')
+    from .. import ownership as _own
+    ck.guard(_own.rule_instance_owned, ck, cx, 'R9', _own.STORES, 'a write addressed to one unit changes the tables of another unit', 4)
+    from .c17 import r8_handler_bound_to_its_server
+    ck.guard(r8_handler_bound_to_its_server, ck, cx, 'R10')
     return cx.idx
